@@ -43,6 +43,7 @@ type LegCase struct {
 	Workers  int         `json:"workers"`
 	Rounds   [][][]LegOp `json:"rounds"` // round -> producer -> callbacks
 	ImagePct int         `json:"image_pct"`
+	IndexSet bool        `json:"index_set,omitempty"` // resbadger models maintain an index set in the apply transactions
 	Optional []string    `json:"optional"`
 }
 
@@ -87,6 +88,7 @@ func genLegEvents(r *rand.Rand, coll bool, n int) []LegEvent {
 func (LegacyScenario) GenCase(r *rand.Rand, prop string) interface{} {
 	c := &LegCase{Pkg: pick(r, "middleware", "resbadger"), Default: chance(r, 50), Typed: chance(r, 40), Workers: pick(r, 1, 2, 4)}
 	c.ImagePct = pick(r, 0, 10, 30)
+	c.IndexSet = c.Pkg == "resbadger" && chance(r, 50)
 	for _, p := range []string{"conn.Publish", "event", "rawEvent", "worker.beforeCb", "worker.afterCb", "runWith.beforeLock", "handler", "handleRequest", "auto.lock"} {
 		if chance(r, 60) {
 			c.Optional = append(c.Optional, p)
@@ -400,6 +402,22 @@ func (LegacyScenario) Execute(sim *sched.Sim, ci interface{}, prop string, race 
 			}
 			if mtyp != nil {
 				mo = mo.WithType(mtyp)
+			}
+			if c.IndexSet {
+				// the index key is the value of property "a"
+				mo = mo.WithIndexSet(&resbadger.IndexSet{Indexes: []resbadger.Index{{Name: "ia", Key: func(v interface{}) []byte {
+					var a interface{}
+					switch x := v.(type) {
+					case legModelT:
+						a = x.A
+					case map[string]interface{}:
+						a = x["a"]
+					}
+					if a == nil {
+						return nil
+					}
+					return []byte(fmt.Sprint(a))
+				}}}})
 			}
 			m.svc.Handle("m.$id", mo, res.Call("noop", func(r res.CallRequest) { r.OK(nil) }))
 			m.svc.Handle("c.$id", co, res.Call("noop", func(r res.CallRequest) { r.OK(nil) }))
